@@ -396,6 +396,10 @@ def stub_extra_checks(c, case, r, opts):
         if len(set(e[0])) != 1:
             c.fail("ensemble members see different theta", case)
             break
+        if any(u is not None and (u[1] != m or u[0] != e[2][0][0]) for m, u in enumerate(e[2])) or \
+                len({u is None for u in e[2]}) != 1:
+            c.fail("a member is seeded with another member's (or another solve's) results", case, e[2])
+            break
 
 
 def run_batch(c, cls, batch, stream, members_of=None):
